@@ -1094,8 +1094,14 @@ impl CompilerContext<'_> {
     }
 
     fn all_signatures(&self) -> impl Iterator<Item=&'_ Signature> {
-        let ins_sigs = self.defs.instrs.values().map(|data| &data.sig);
-        let non_ins_sigs = self.defs.funcs.values().filter_map(|func| func.sig.as_ref());
+        // (in a fixed order, because diagnostics are produced while iterating over these)
+        let mut instrs = self.defs.instrs.iter().collect::<Vec<_>>();
+        instrs.sort_by_key(|&(&key, _)| key);
+        let mut funcs = self.defs.funcs.iter().collect::<Vec<_>>();
+        funcs.sort_by_key(|&(&def_id, _)| def_id);
+
+        let ins_sigs = instrs.into_iter().map(|(_, data)| &data.sig);
+        let non_ins_sigs = funcs.into_iter().filter_map(|(_, func)| func.sig.as_ref());
         ins_sigs.chain(non_ins_sigs)
     }
 
